@@ -11,6 +11,21 @@ def keep(line):
 
 def run(ctx):
     qc.run(ctx, FILES, ['empty'], n_quick=1500, n_thorough=60000, keep=keep, what='EventQueue::emptyQueue')
+    # thread half: observers calling emptyQueue() against producers and process/processOne/takeEvent/clearEvents
+    # consumers, replayed schedule by schedule on the thread-level model and the real queue
+    import qc_domain
+    import vlib
+    from props import _qc_common as qcc
+    res = vlib.build_many(ctx, [dict(name='qconc', src='qconc.cpp', defs=[])])
+    binary, err = res['qconc']
+    if binary is None:
+        raise RuntimeError('harness qconc.cpp does not compile against /repo: %s' % err[-1500:])
+    cases = qcc.corpus_cases() + [qc_domain.gen_case(ctx.rng.fork(), 'empty') for _ in range(ctx.budget(800, 30000))]
+    st, model, texts = qc_domain.correspond(ctx, binary, cases, 'emptyQueue under threads')
+    ctx.coverage['thread_schedules_replayed_on_impl'] = st['compared']
+    ctx.coverage['thread_visible_actions_compared'] = st['actions']
+    ctx.coverage['thread_disagreements'] = st['disagreements']
+    ctx.coverage['evaluations'] += st['compared']
 
 
 def replay(ctx, path):
